@@ -60,10 +60,12 @@ class Path:
     loopstack: List[Tuple[str, ...]] = field(default_factory=list)  # target names of the enclosing loops, innermost last
     loopsrc: List[ast.AST] = field(default_factory=list)  # their iterables
     alias: Dict[str, Tuple[str, ...]] = field(default_factory=dict)  # local name -> names bound to the same mutable container
+    epoch: Dict[str, int] = field(default_factory=dict)  # local name -> number of (re)bindings so far (assignments, loop targets)
+    gepoch: Dict[int, Dict[str, int]] = field(default_factory=dict)  # id(guard expression) -> binding epochs of its names when it was decided
 
     def fork(self) -> "Path":
         p = Path(dict(self.env), list(self.guards), list(self.events), dict(self.loopvars),
-                 self.ret, self.ret_node, self.loop, dict(self.assigned), dict(self.attrs), dict(self.phi), dict(self.phi_next), list(self.loopstack), list(self.loopsrc), dict(self.alias))
+                 self.ret, self.ret_node, self.loop, dict(self.assigned), dict(self.attrs), dict(self.phi), dict(self.phi_next), list(self.loopstack), list(self.loopsrc), dict(self.alias), dict(self.epoch), dict(self.gepoch))
         return p
 
 
@@ -270,6 +272,7 @@ class Walker:
         if isinstance(target, ast.Name):
             p.env[target.id] = value
             p.assigned[target.id] = p.assigned.get(target.id, 0) + 1
+            p.epoch[target.id] = p.epoch.get(target.id, 0) + 1
         elif isinstance(target, (ast.Tuple, ast.List)):
             for i, t in enumerate(target.elts):
                 if isinstance(t, ast.Starred):
@@ -353,10 +356,11 @@ class Walker:
             t, pol = t2, False
         # a condition already decided on this path (same pure expression, nothing it reads was written since) is not decided again:
         # `if d: ...` followed by `if not d: ...` has two feasible paths, not four
+        names_now = {n.id: p.epoch.get(n.id, 0) for n in ast.walk(t) if isinstance(n, ast.Name)}
         if kind == "if" and not any(isinstance(n, ast.Call) for n in ast.walk(t)):
             key = dump(t)
             for idx, (g0, pol0, k0) in enumerate(p.guards):
-                if k0 in ("if", "assert") and dump(g0) == key:
+                if k0 in ("if", "assert") and dump(g0) == key and p.gepoch.get(id(g0)) == names_now:
                     reads_attr = any(isinstance(n, ast.Attribute) for n in ast.walk(t))
                     written_since = reads_attr and any(e.kind in ("attr", "aug", "store", "call") and len(e.guards) > idx for e in p.events)
                     if not written_since:
@@ -365,6 +369,8 @@ class Walker:
         a = p.fork()
         a.guards.append((t, pol, kind))
         p.guards.append((t, not pol, kind))
+        a.gepoch[id(t)] = names_now
+        p.gepoch[id(t)] = names_now
         return [a], [p]
 
     # ---- comprehensions --------------------------------------------------
@@ -444,6 +450,9 @@ class Walker:
         """registers the loop variables of `for target in it`; returns definitions for targets that are functions of
         another loop variable:  `for k, v in d.items()` -> v := d[k], k over d;  `for i, x in enumerate(xs)` -> x := xs[i], i over range(len(xs))"""
         env: Dict[str, ast.AST] = {}
+        for n in ast.walk(target):
+            if isinstance(n, ast.Name):
+                p.epoch[n.id] = p.epoch.get(n.id, 0) + 1  # a new binding: conditions decided about the old value say nothing about this one
         two = isinstance(target, (ast.Tuple, ast.List)) and len(target.elts) == 2 and all(isinstance(t, ast.Name) for t in target.elts)
         if two and isinstance(it, ast.Call) and isinstance(it.func, ast.Attribute) and it.func.attr == "items" and not it.args and not it.keywords:
             k, v = target.elts[0].id, target.elts[1].id
@@ -553,6 +562,7 @@ class Walker:
             if isinstance(s.target, ast.Name):
                 p.env[s.target.id] = new
                 p.assigned[s.target.id] = p.assigned.get(s.target.id, 0) + 1
+                p.epoch[s.target.id] = p.epoch.get(s.target.id, 0) + 1
             elif isinstance(s.target, ast.Attribute):
                 ch = attr_chain(s.target)
                 if ch:
